@@ -19,6 +19,7 @@ RULE += ' In half of the cases the caller re-fills the frames it passed to JSONS
 RULE += ' A third of the tearsheet objects get their periods assigned after construction; create_drawdowns is also applied to the raw equity series (first value not 1.0).'
 RULE += ' Round 11: the allocation frame given to JSONStatistics starts with 0, 1, 3 or n/2 rows blank in every column; the yearly bars of the rendered tearsheet are read (one per calendar year, each the compounded daily returns of that year); every other figure is drawn for the curve started in mid-December.'
 RULE += ' Round 12: a third of the figures are drawn after an earlier tearsheet of another curve whose figure was left open; the JSON month and year aggregates are compared period by period with the observations dated in each period.'
+RULE += ' Round 13: every third curve is followed, in the same process, by a sibling with the same dates, first, last, highest and lowest value met in another order.'
 ASSUMPTIONS = [
     'Sharpe/Sortino are not compared when the deviation is below 1e-6 of the largest return (quotient of rounding noise)',
     'drawdown duration under arbitrary scaling is compared only on curves without near-ties',
